@@ -119,8 +119,8 @@ func binCase(r *Rng, side *Sidecar) stepOut {
 		hi = uint64(r.Intn(5))
 		lo = uint64(r.Intn(5))
 	default:
-		// uint64 wrap-around of hi+lo: only with an executable that succeeds on the wrapped midpoints, so that the real loop ends
-		lo = 20_999
+		// bounds whose sum exceeds 2^64: the midpoint must not wrap around (fixed in /repo 81e4910), whatever the executable answers
+		lo = []uint64{20_999, 20_999, 1 << 63, (1 << 63) + 12345, ^uint64(0) - 1000}[r.Intn(5)]
 		hi = ^uint64(0) - uint64(r.Intn(3))
 	}
 	// step function of gas
@@ -140,14 +140,6 @@ func binCase(r *Rng, side *Sidecar) stepOut {
 	var outs []string
 	for range bps {
 		outs = append(outs, pickClass(errPct))
-	}
-	if shape >= 8 {
-		d = "ExOk"
-		for j := range outs {
-			if bps[j] < 1<<62 {
-				outs[j] = "ExOk"
-			}
-		}
 	}
 	ex := func(g uint64) string {
 		c := d
@@ -175,9 +167,19 @@ func binCase(r *Rng, side *Sidecar) stepOut {
 			return true, &evmtypes.MsgEthereumTxResponse{VmError: c}, nil
 		}
 	})
-	if len(probes) > 150 {
-		side.Count("binsearch:no-termination-within-150-probes")
-		return stepOut{kind: "binsearch-skipped", canon: fmt.Sprintf("binskip|%d|%d", lo, hi), desc: map[string]interface{}{"kind": "binsearch", "lo": lo, "hi": hi, "skipped": true}}
+	// the search of a uint64 interval needs at most 64 probes, each strictly inside the interval still open
+	outside := false
+	for _, g := range probes {
+		if lo+1 < hi && (g <= lo || g >= hi) {
+			outside = true
+		}
+	}
+	if len(probes) > 150 || outside {
+		cs := map[string]interface{}{"kind": "binsearch", "lo": lo, "hi": hi, "breakpoints": bps, "outcomes": outs, "default": d, "first_probes": probes[:min(len(probes), 12)]}
+		side.Hit("C08/query/binsearch/midpoint-wraps", fmt.Sprintf("BinSearch(%d, %d): %d probes without an answer or a probe outside the bounds: the midpoint wrapped around uint64; an EstimateGas with such an allowance never returns", lo, hi, len(probes)), cs)
+		if len(probes) > 150 {
+			return stepOut{kind: "binsearch-skipped", canon: fmt.Sprintf("binskip|%d|%d", lo, hi), desc: cs}
+		}
 	}
 	obs := "BErr"
 	if err == nil {
@@ -192,7 +194,7 @@ func binCase(r *Rng, side *Sidecar) stepOut {
 	}
 	side.Count(fmt.Sprintf("binsearch:probes<=%d:err=%v", (len(probes)+15)/16*16, err != nil))
 	if shape >= 8 {
-		side.Count("binsearch:uint64-wrap")
+		side.Count("binsearch:bounds-sum-above-2^64")
 	}
 	return stepOut{kind: "binsearch", canon: fmt.Sprintf("bin|%d|%d|%v|%v|%s|%v", lo, hi, bps, outs, d, probes), nontrivial: len(probes) > 0,
 		desc: map[string]interface{}{"kind": "binsearch", "lo": lo, "hi": hi, "breakpoints": bps, "outcomes": outs, "default": d, "probes": probes, "result": obs},
